@@ -39,10 +39,14 @@ def parseUnit (ws : List String) : Option AUnit := do
   let tp : Option TP ← match g "w" with
     | none => some none
     | some w => do
-      let wavelet ← w.toNat?
+      let wavelet ← optNat w
       let who ← optNat ((g "who").getD "-")
       let dho ← optNat ((g "dho").getD "-")
-      pure (some { wavelet := wavelet, waveletHo := who, depthHo := dho, hasEtp := (g "etp") == some "1" })
+      let flag (s : Option String) : Option (Option Bool) := match s with
+        | some "1" => some (some true) | some "0" => some (some false) | some "-" => some none | none => some none | _ => none
+      let aif ← flag (g "aif")
+      let af ← flag (g "af")
+      pure (some { wavelet := wavelet, asymIndexFlag := aif, waveletHo := who, asymFlag := af, depthHo := dho, hasEtp := (g "etp") == some "1" })
   pure { code, next, prev, len, dataLen, picNum, sliceCount, hdr, tp }
 
 def showOptNat : Option Nat → String
